@@ -60,7 +60,7 @@ ASSUMPTIONS = [
 ]
 REAL = ["BaseTrigger (loop, cron check, claims, execute_task)", "Mem/SQLite trigger stores", "TriggerDefinition run ids", "conditions (event, status, cron)", "argument providers", "orchestrator route_call"]
 STUBBED = ["clock", "thread / process scheduling", "uuid4"]
-PROBES = ["several_pending_together", "and_trigger_fired", "or_trigger_fired", "claim_lost", "cron_first_fire", "cron_inside_window", "cron_outside_window", "cron_min_interval_block", "concurrent_switch_in_loop"]
+PROBES = ["several_pending_together", "and_trigger_fired", "or_trigger_fired", "claim_lost", "cron_first_fire", "cron_inside_window", "cron_outside_window", "cron_min_interval_block", "concurrent_switch_in_loop", "report_released_inside_store_method"]
 
 
 def plan(tier: str) -> list[dict]:
@@ -68,7 +68,7 @@ def plan(tier: str) -> list[dict]:
     return [
         {"stratum": "events-seq", "runs": 128 if q else 6000, "params": {"mode": "events"}, "chunk": 8 if q else 150},
         {"stratum": "events-conc-sqlite", "runs": 160 if q else 8000, "params": {"mode": "conc", "stack": "sqlite"}, "chunk": 10 if q else 200},
-        {"stratum": "events-conc-mem", "runs": 160 if q else 8000, "params": {"mode": "conc", "stack": "mem"}, "chunk": 10 if q else 200},
+        {"stratum": "events-conc-mem", "runs": 400 if q else 12000, "params": {"mode": "conc", "stack": "mem"}, "chunk": 25 if q else 300},
         {"stratum": "cron-seq", "runs": 96 if q else 5000, "params": {"mode": "cron"}, "chunk": 6 if q else 125},
         {"stratum": "cron-conc-sqlite", "runs": 160 if q else 8000, "params": {"mode": "cronconc", "stack": "sqlite"}, "chunk": 10 if q else 200},
         {"stratum": "cron-conc-mem", "runs": 96 if q else 5000, "params": {"mode": "cronconc", "stack": "mem"}, "chunk": 6 if q else 125},
@@ -208,7 +208,12 @@ def _run_conc(seed: int, stack: str, replay: dict | None) -> dict:
     parg = {"rand": rng.choice([0.2, 0.4]), "pct": rng.choice([1, 2, 3]), "rr": rng.choice([1, 2, 5])}[policy]
     logic = rng.choice(["single", "or"])
     n_pre = rng.randint(1, 2)
-    n_live = rng.randint(0, 2)
+    n_live = rng.choice([0, 1, 2, 2, 4, 6])
+    # where the live reports land: at seeded offsets over the whole duration of the loops, or (fault placement)
+    # released by a hook while a loop thread is inside one of the store's valid-condition / claim methods
+    placed = rng.random() < 0.5
+    place_fn = rng.choice(["clear_valid_conditions", "get_valid_conditions", "claim_trigger_run", "clear_valid_conditions"])
+    place_line = rng.randint(1, 5)
     schedule = replay.get("schedule") if replay else None
     viol: list[dict] = []
     with World(seed, stack, ["a", "b", "rep"], policy=policy, policy_arg=parg, schedule=schedule, trace_files=TRIG_TRACE if stack == "mem" else None, max_steps=60000) as w:
@@ -237,9 +242,33 @@ def _run_conc(seed: int, stack: str, replay: dict | None) -> dict:
 
             return main
 
+        from simkit.core import SimEvent
+
+        gates: list[Any] = []
+        place = {"n": 0}
+
+        def hook(th: Any, kind_: str, detail: Any) -> None:
+            if not gates or th.actor.name == "rep":
+                return
+            hit = (kind_ == "line" and detail[0] == place_fn) or (kind_ == "sql" and place_fn.split("_")[0] in ("clear", "claim") and "trg_" in str(detail))
+            if hit:
+                place["n"] += 1
+                if place["n"] >= place_line:
+                    place["n"] = 0
+                    sim.bump("probe.report_released_inside_store_method")
+                    gates.pop(0).set()
+
+        if placed and n_live:
+            sim.fault_hook = hook
+
         def reporter() -> None:
             for j in range(n_live):
-                sim.sleep(rng.choice([0.0, 0.0005, 0.002]))
+                if placed:
+                    ev = SimEvent()
+                    gates.append(ev)
+                    ev.wait(0.05)
+                else:
+                    sim.sleep(rng.choice([0.0, 0.0005, 0.002, 0.005, 0.01, 0.02, 0.03]))
                 t_ = 100 + j
                 tokens.append(t_)
                 rep_app.trigger.emit_event("e1" if logic == "single" else rng.choice(["e1", "e2"]), {"tok": t_})
